@@ -139,6 +139,7 @@ type genOpts struct {
 	kind                        int  // 0: forward or return cash letters at random, 1: forward only, 2: return only
 	zones                       bool // date members carry a non-UTC zone and a time of day that crosses midnight in UTC
 	mutateP                     int  // percent of fields varied
+	sig7                        bool // digital signatures of arbitrary 7-bit bytes (NUL and control characters included, no line breaks): binary content that every encoding and framing can carry
 	alphaSeq                    bool // some items carry a caller-supplied item sequence number that is not a number (institution keys such as "A0012X7")
 	fileBundles                 bool // the file's own Bundles member (JSON "bundle", outside any cash letter, never written) holds bundles too
 	unbuilt                     bool // after building, members the build step derives are set to other valid values (record numbers out of order, control records swapped between bundles): a file as a caller may assemble it without building
@@ -248,6 +249,21 @@ func mkIVData(r rng, o genOpts) icl.ImageViewData {
 			sig[len(sig)-1] = byte(0x80 + r.Intn(0x7f))
 		} else {
 			sig[len(sig)-1] = 'Z'
+		}
+	}
+	if o.sig7 && !o.binary {
+		sig = make([]byte, 2+r.Intn(20))
+		for i := range sig {
+			b := byte(r.Intn(128))
+			for b == '\n' || b == '\r' {
+				b = byte(r.Intn(128))
+			}
+			sig[i] = b
+		}
+		sig[0], sig[len(sig)-1] = 'S', 'Z'
+		sig[1+r.Intn(len(sig)-1)-0] = sig[1+r.Intn(len(sig)-1)-0] // keep length
+		if len(sig) > 2 {
+			sig[1] = 0x00
 		}
 	}
 	d.DigitalSignature = sig
